@@ -31,7 +31,7 @@ ASSUMPTIONS = ["os-level events issued through Python are all seen by the audit 
                "'complete' = the file decompresses (with its .ch) to / equals the source bytes",
                "a failure is an exception raised while one chunk is being (de)compressed"]
 REQUIRED = {"compress_faults_injected": 20, "decompress_faults_injected": 20, "remove_events_judged": 4, "stale_bin_runs": 9, "twin_sync_selectors": 50, "twin_selectors": 200,
-            "roundtrips": 4, "entry_paths": 8, "twin_inconsistent_metadata": 3, "explicit_companions": 4, "silent_write_faults_injected": 20, "same_base_name_entries": 12}
+            "roundtrips": 4, "entry_paths": 8, "twin_inconsistent_metadata": 3, "explicit_companions": 4, "silent_write_faults_injected": 20, "same_base_name_entries": 12, "noncanonical_entries": 18}
 CASE_TIMEOUT = 200.0
 
 
@@ -462,6 +462,32 @@ def run_case(case):
                     sr.close()
                 except Exception as e:
                     res.exception(key + ":exception", e, lab)
+        # ---- the same files reached through paths that are not canonical: a symlinked session folder, a path relative to the working directory, a
+        #      path with a redundant '..' - every entry point still resolves to the recording
+        import os as _os
+        w = d / "noncanonical" / "session"
+        b = G.write(rec, w)
+        sr = spikeglx.Reader(b)
+        sr.compress_file(keep_original=True, chunk_duration=0.003)
+        sr.close()
+        link = d / "noncanonical" / "link-to-session"
+        _os.symlink(w, link, target_is_directory=True)
+        forms = {"symlinked folder": lambda p_: link / p_.name, "relative path": lambda p_: Path(_os.path.relpath(p_, _os.getcwd())),
+                 "path with ..": lambda p_: p_.parent / ".." / p_.parent.name / p_.name}
+        for fname, fmap in forms.items():
+            for suf in (".bin", ".cbin", ".meta"):
+                path = fmap(b.with_suffix(suf))
+                lab = f"{kind}: Reader({suf}) through a {fname}"
+                try:
+                    sr = spikeglx.Reader(path)
+                    res.count("entry_paths")
+                    res.count("noncanonical_entries")
+                    okb = sr.file_bin is not None and Path(sr.file_bin).suffix in (".bin", ".cbin")
+                    res.check(okb and sr.shape == (ns, rec.nc) and np.allclose(sr[:, :], cal, rtol=2.0 ** -22, atol=0), "entry:noncanonical-path",
+                              f"{lab}: binary {getattr(sr.file_bin, 'name', None)}, shape {sr.shape} expected {(ns, rec.nc)} - does not resolve to the recording")
+                    sr.close()
+                except Exception as e:
+                    res.exception("entry:noncanonical-path:exception", e, lab)
         # ---- companions named explicitly (meta_file= / ch_file=) because they live elsewhere under other names
         w = d / "explicit"
         b = G.write(rec, w)
